@@ -27,6 +27,8 @@ MOD=.
 for m in sequencers/single sequencers/based apps/testapp da core; do case "$FIRST" in $m/*) MOD=$m;; esac; done
 if [ -z "$PKG" ] || [ ! -d "$WT/$PKG" ]; then PKG=$(dirname "$FIRST"); fi
 PKG=${PKG#./}
+# the demonstration decides the module (a change in the root module may be demonstrated in a dependant module)
+for m in sequencers/single sequencers/based apps/testapp da core; do case "$PKG/" in $m/*) MOD=$m;; esac; done
 REL=${PKG#$MOD/}; [ "$MOD" = "." ] && REL=$PKG; [ "$PKG" = "$MOD" ] && REL=.
 TESTNAME=$(grep -ho '^func Test[A-Za-z0-9_]*' "$DEMO" | sed 's/func //' | paste -sd'|')
 cp "$DEMO" "$WT/$PKG/"
